@@ -1869,7 +1869,9 @@ class ParallelSampleSMP:
         number_of_chains = len(samplers)
 
         # Save passed parameters and check their shapes. -------------------------------
-        self.samplers = _copy.deepcopy(samplers)
+        # One copy per chain: copying the list as a whole would keep one object for all
+        # chains if the same sampler is passed several times ([sampler] * n)
+        self.samplers = [_copy.deepcopy(sampler) for sampler in samplers]
 
         assert len(filenames) == number_of_chains, (
             f"The number of supplied initial models ({len(filenames)}) "
